@@ -46,7 +46,10 @@ type target struct {
 }
 
 func newTarget() (*target, error) {
-	h, err := wire.NewHost(wire.HostCfg{Name: "T", MTU: 1500, V4: []tcpip.Address{wire.AddrA4}, V6: []tcpip.Address{wire.AddrA6}, SACK: true, WithARP: true})
+	// an Ethernet-like link: next hops must be resolved (replies to the scripted peer take
+	// the link address of the frame they answer; replies to other sources start resolutions
+	// that nobody answers)
+	h, err := wire.NewHost(wire.HostCfg{Name: "T", MTU: 1500, V4: []tcpip.Address{wire.AddrA4}, V6: []tcpip.Address{wire.AddrA6}, SACK: true, WithARP: true, LinkAddr: tcpip.LinkAddress([]byte{2, 0, 0, 0, 0, 1}), Caps: stack.CapabilityResolutionRequired})
 	if err != nil {
 		return nil, err
 	}
@@ -57,6 +60,9 @@ func newTarget() (*target, error) {
 	copy(t.c.S6[:], wire.AddrA6)
 	copy(t.c.P6[:], wire.AddrB6)
 	t.c.PMAC = [6]byte{2, 0, 0, 0, 0, 2}
+	t.p4.RemoteMAC, t.p6.RemoteMAC = tcpip.LinkAddress(t.c.PMAC[:]), tcpip.LinkAddress(t.c.PMAC[:])
+	h.S.AddLinkAddress(1, wire.AddrB4, tcpip.LinkAddress(t.c.PMAC[:]))
+	h.S.AddLinkAddress(1, wire.AddrB6, tcpip.LinkAddress(t.c.PMAC[:]))
 	t.c.ListenPort, t.c.UDPPort = 80, 5353
 	var e *tcpip.Error
 	if t.lep, e = h.S.NewEndpoint(tcp.ProtocolNumber, ipv6.ProtocolNumber, &waiter.Queue{}); e != nil {
@@ -135,7 +141,7 @@ func (t *target) drain() {
 // connection and deliver a UDP datagram. Returns "" or what failed.
 func (t *target) probes(idx int) string {
 	// let virtual time pass: retransmission and reassembly timers armed during the barrage fire
-	time.Sleep(1500 * time.Millisecond)
+	time.Sleep(3500 * time.Millisecond) // long enough for a resolution nobody answers to fail (3 x 1 s)
 	rawpeer.Settle()
 	t.drain()
 	t.probeN++
@@ -143,7 +149,7 @@ func (t *target) probes(idx int) string {
 	// 1. echo
 	pl := []byte(fmt.Sprintf("probe-%d-%d", idx, n))
 	m := rfc.ICMP{Type: 8, Rest: [4]byte{0x77, byte(n >> 8), 0, byte(n)}, Payload: pl}
-	t.h.L.Inject(ipv4.ProtocolNumber, ip4(&t.c, rfc.ProtoICMP, m.BytesV4(true), uint16(n)), "")
+	t.h.L.Inject(ipv4.ProtocolNumber, ip4(&t.c, rfc.ProtoICMP, m.BytesV4(true), uint16(n)), tcpip.LinkAddress(t.c.PMAC[:]))
 	rawpeer.Settle()
 	time.Sleep(time.Millisecond)
 	rawpeer.Settle()
@@ -212,7 +218,7 @@ func (t *target) probes(idx int) string {
 	rawpeer.Settle()
 	// 3. UDP
 	u := rfc.UDP{SrcPort: pp, DstPort: 5353, Payload: pl}
-	t.h.L.Inject(ipv4.ProtocolNumber, ip4(&t.c, rfc.ProtoUDP, u.Bytes4(t.c.P4, t.c.S4, true), uint16(n)), "")
+	t.h.L.Inject(ipv4.ProtocolNumber, ip4(&t.c, rfc.ProtoUDP, u.Bytes4(t.c.P4, t.c.S4, true), uint16(n)), tcpip.LinkAddress(t.c.PMAC[:]))
 	rawpeer.Settle()
 	var from tcpip.FullAddress
 	v, _, e = t.uep.Read(&from)
